@@ -2,9 +2,12 @@ package zz_verifsim
 
 import (
 	"fmt"
+	"time"
 
 	"github.com/relab/hotstuff"
 	"github.com/relab/hotstuff/internal/proto/clientpb"
+	"github.com/relab/hotstuff/internal/proto/hotstuffpb"
+	"github.com/relab/hotstuff/internal/proto/kauripb"
 	"github.com/relab/hotstuff/security/crypto"
 )
 
@@ -209,6 +212,31 @@ func relabelSig(sig hotstuff.QuorumSignature, n int) hotstuff.QuorumSignature {
 	return nil
 }
 
+// permuteSig keeps the signer set and the signature bytes in place but rotates the signer labels by one entry.
+func permuteSig(sig hotstuff.QuorumSignature) hotstuff.QuorumSignature {
+	switch s := sig.(type) {
+	case crypto.Multi[*crypto.EDDSASignature]:
+		if len(s) < 2 {
+			return nil
+		}
+		out := make(crypto.Multi[*crypto.EDDSASignature], 0, len(s))
+		for i, e := range s {
+			out = append(out, crypto.RestoreEDDSASignature(e.ToBytes(), s[(i+1)%len(s)].Signer()))
+		}
+		return out
+	case crypto.Multi[*crypto.ECDSASignature]:
+		if len(s) < 2 {
+			return nil
+		}
+		out := make(crypto.Multi[*crypto.ECDSASignature], 0, len(s))
+		for i, e := range s {
+			out = append(out, crypto.RestoreECDSASignature(e.ToBytes(), s[(i+1)%len(s)].Signer()))
+		}
+		return out
+	}
+	return nil
+}
+
 // truncSig drops the last signer of a multi-signature.
 func truncSig(sig hotstuff.QuorumSignature, drop int) hotstuff.QuorumSignature {
 	if drop <= 0 {
@@ -306,6 +334,12 @@ func (a *adversary) forgeQC(nd *Node, kind string, view hotstuff.View) (hotstuff
 			return hotstuff.NewQuorumCert(sig, base.View(), base.BlockHash()), true
 		}
 	case "swapids":
+		if a.chance(0.5) {
+			// the same signer set and the same bytes, but the labels rotated among the entries
+			if sig := permuteSig(base.Signature()); sig != nil {
+				return hotstuff.NewQuorumCert(sig, base.View(), base.BlockHash()), true
+			}
+		}
 		if sig := relabelSig(base.Signature(), w.plan.N); sig != nil {
 			return hotstuff.NewQuorumCert(sig, base.View(), base.BlockHash()), true
 		}
@@ -385,6 +419,14 @@ func (a *adversary) onPropose(nd *Node, p *hotstuff.ProposeMsg) bool {
 		// two blocks for one view, each to a part of the cluster
 		batch := &clientpb.Batch{Commands: []*clientpb.Command{{ClientID: 7000 + uint32(nd.id), SequenceNumber: a.ctr, Data: []byte("eq")}}}
 		b2 := hotstuff.NewBlock(b.Parent(), b.QuorumCert(), batch, b.View(), nd.id)
+		if len(a.qcs) > 1 && a.chance(0.5) {
+			// the second block forks off further back: it extends an older certified block
+			old := a.qcs[a.intn(len(a.qcs))]
+			if old.BlockHash() != b.QuorumCert().BlockHash() && old.View() < b.View() {
+				b2 = hotstuff.NewBlock(old.BlockHash(), old, batch, b.View(), nd.id)
+				a.fired("equivocate-different-parents")
+			}
+		}
 		w.reg.add(b2, nd)
 		p2 := hotstuff.ProposeMsg{ID: nd.id, Block: b2, AggregateQC: p.AggregateQC}
 		for _, id := range a.others(nd) {
@@ -720,3 +762,64 @@ func (a *adversary) onFetch(peer, asker *Node, h hotstuff.Hash) *hotstuff.Block 
 }
 
 func (a *adversary) inject(in Inject) { a.injectWire(in) }
+
+// onContribution: a Byzantine tree node, besides its real contribution, sends forged partial aggregates
+// (its own signature bytes under other replicas' names) to its parent and to the root, some of them
+// late enough to arrive after the receiver's aggregation timer has expired.
+func (a *adversary) onContribution(nd *Node, view hotstuff.View, sig hotstuff.QuorumSignature) {
+	acts := a.acts(nd)
+	if acts == nil || !has(acts, "forgecontrib") || sig == nil || !a.chance(nd.byz.Rate) {
+		return
+	}
+	tr := nd.cfg.Tree()
+	if tr == nil {
+		return
+	}
+	w := a.w
+	var forged hotstuff.QuorumSignature
+	k := 1 + a.intn(3)
+	switch s := sig.(type) {
+	case crypto.Multi[*crypto.EDDSASignature]:
+		if len(s) == 0 {
+			return
+		}
+		out := crypto.Multi[*crypto.EDDSASignature]{}
+		for i := 0; i < k; i++ {
+			out = append(out, crypto.RestoreEDDSASignature(s[0].ToBytes(), hotstuff.ID(1+a.intn(w.plan.N))))
+		}
+		forged = out
+	case crypto.Multi[*crypto.ECDSASignature]:
+		if len(s) == 0 {
+			return
+		}
+		out := crypto.Multi[*crypto.ECDSASignature]{}
+		for i := 0; i < k; i++ {
+			out = append(out, crypto.RestoreECDSASignature(s[0].ToBytes(), hotstuff.ID(1+a.intn(w.plan.N))))
+		}
+		forged = out
+	default:
+		forged = claimSigner(w.plan.Crypto, sig, hotstuff.ID(1+a.intn(w.plan.N)))
+	}
+	if forged == nil {
+		return
+	}
+	c := &kauripb.Contribution{ID: uint32(nd.id), Signature: hotstuffpb.QuorumSignatureToProto(forged), View: uint64(view)}
+	targets := []hotstuff.ID{tr.Root()}
+	if p, ok := tr.Parent(); ok {
+		targets = append(targets, p)
+	}
+	for _, to := range targets {
+		to := to
+		// now, or around the time the receiver's aggregation timer runs out
+		d := time.Duration(a.roll()%uint64(3*tr.WaitTime()+time.Millisecond))
+		if a.chance(0.3) {
+			d = 0
+		}
+		w.after(d, "adv-contrib", func() {
+			if !w.ended {
+				a.sendTo(nd, to, "contrib", c)
+			}
+		})
+	}
+	a.fired("forgecontrib")
+}
